@@ -354,63 +354,97 @@ theorem fillTop_inv (s : DynamicPool) (off n v : Nat) (h : s.Inv) :
       exact ⟨this.1, this.2.1, by simpa using this.2.2.1, this.2.2.2⟩
     | tail _ hq' => exact h4 q (List.mem_cons_of_mem _ hq')
 
+theorem calloc_overflow (grow : Nat → Nat) (fresh : Nat) (s : DynamicPool) (c k : Nat) (m : Mem)
+    (h : sizeMod ≤ c * k) : calloc grow fresh s c k m = (none, s, m) := by
+  have := (mulOverflows_iff c k).2 h
+  simp [calloc, this]
+
+theorem calloc_no_overflow (grow : Nat → Nat) (fresh : Nat) (s : DynamicPool) (c k : Nat) (m : Mem)
+    (h : c * k < sizeMod) :
+    calloc grow fresh s c k m =
+      (match (malloc grow fresh s (c * k) m).1 with
+       | some p => (some p, { (malloc grow fresh s (c * k) m).2.1 with
+                              pages := fillTop (malloc grow fresh s (c * k) m).2.1.pages p.2 (c * k) 0 },
+                    (malloc grow fresh s (c * k) m).2.2.check (p.2 + c * k ≤ (malloc grow fresh s (c * k) m).2.1.topBytesLen))
+       | none => (none, (malloc grow fresh s (c * k) m).2.1, (malloc grow fresh s (c * k) m).2.2)) := by
+  have hno : mulOverflows c k = false := by
+    cases hm : mulOverflows c k
+    · rfl
+    · have := (mulOverflows_iff c k).1 hm; omega
+  have hmod : c * k % sizeMod = c * k := Nat.mod_eq_of_lt h
+  unfold calloc; dsimp only
+  rw [hno, hmod]
+  simp only [Bool.false_eq_true, if_false]
+  cases (malloc grow fresh s (c * k) m).1 <;> rfl
+
 theorem calloc_refines (grow : Nat → Nat) (fresh : Nat) (s : DynamicPool) (c k : Nat) (m : Mem) (h : s.Inv)
-    (hck : c * k < sizeMod) :
+    (hsz : s.topPageSize < sizeMod) :
     (calloc grow fresh s c k m).1 = (DPool.calloc grow fresh s.abs c k (!m.alloc.1)).1 ∧
     (calloc grow fresh s c k m).2.1.abs = (DPool.calloc grow fresh s.abs c k (!m.alloc.1)).2 := by
-  have hr := malloc_refines grow fresh s (c * k) m h
-  have hmod : c * k % sizeMod = c * k := Nat.mod_eq_of_lt hck
-  unfold calloc DPool.calloc; dsimp only
-  rw [hmod, ← hr.1, ← hr.2]
-  cases hm : (malloc grow fresh s (c * k) m).1 with
-  | none => simp
-  | some a => simp [abs_fillTop]
+  by_cases hov : sizeMod ≤ c * k
+  · rw [calloc_overflow grow fresh s c k m hov]
+    obtain ⟨p, ps, hp, ht, _⟩ := inv_top s h
+    have e1 : s.abs.top.size = s.topPageSize := by rw [abs_top s p ps hp, ht]
+    have : c * k ≥ s.abs.top.size := by omega
+    simp [DPool.calloc, DPool.malloc, this]
+  · have hr := malloc_refines grow fresh s (c * k) m h
+    rw [calloc_no_overflow grow fresh s c k m (by omega)]
+    unfold DPool.calloc; dsimp only
+    rw [← hr.1, ← hr.2]
+    cases hm : (malloc grow fresh s (c * k) m).1 with
+    | none => simp
+    | some a => simp [abs_fillTop]
 
 theorem calloc_inv (grow : Nat → Nat) (fresh : Nat) (s : DynamicPool) (c k : Nat) (m : Mem) (h : s.Inv) :
     (calloc grow fresh s c k m).2.1.Inv := by
-  have hi := malloc_inv grow fresh s (c * k % sizeMod) m h
-  unfold calloc; dsimp only
-  cases hm : (malloc grow fresh s (c * k % sizeMod) m).1 with
-  | none => simpa using hi
-  | some a => simpa using fillTop_inv _ _ _ _ hi
+  by_cases hov : sizeMod ≤ c * k
+  · rw [calloc_overflow grow fresh s c k m hov]; exact h
+  · have hi := malloc_inv grow fresh s (c * k) m h
+    rw [calloc_no_overflow grow fresh s c k m (by omega)]
+    cases hm : (malloc grow fresh s (c * k) m).1 with
+    | none => simpa using hi
+    | some a => simpa using fillTop_inv _ _ _ _ hi
 
 /-- same allocator events as `malloc`; the `memset` stays inside the newest page -/
 theorem calloc_ledger (grow : Nat → Nat) (fresh : Nat) (s : DynamicPool) (c k : Nat) (m : Mem) (h : s.Inv) :
     ((calloc grow fresh s c k m).1 = none → (calloc grow fresh s c k m).2.1 = s) ∧
     (calloc grow fresh s c k m).2.2.live + s.owned = m.live + (calloc grow fresh s c k m).2.1.owned ∧
     (calloc grow fresh s c k m).2.2.fault = m.fault := by
-  have hl := malloc_ledger grow fresh s (c * k % sizeMod) m
-  unfold calloc; dsimp only
-  cases hm : (malloc grow fresh s (c * k % sizeMod) m).1 with
-  | none => simp only [hm] at hl ⊢; exact ⟨fun _ => hl.1 trivial, hl.2⟩
-  | some a =>
-    have hs := malloc_some grow fresh s _ m h a hm
-    simp only [hs.2.2.1, decide_true, Mem.check_true]
-    refine ⟨fun hn => by simp at hn, ?_, hl.2.2⟩
-    have : ({ (malloc grow fresh s (c * k % sizeMod) m).2.1 with
-              pages := fillTop (malloc grow fresh s (c * k % sizeMod) m).2.1.pages a.2 (c * k % sizeMod) 0 } : DynamicPool).owned
-        = (malloc grow fresh s (c * k % sizeMod) m).2.1.owned := by
-      simp only [owned, fillTop]; cases (malloc grow fresh s (c * k % sizeMod) m).2.1.pages <;> rfl
-    rw [this]; exact hl.2.1
-
+  by_cases hov : sizeMod ≤ c * k
+  · rw [calloc_overflow grow fresh s c k m hov]; exact ⟨fun _ => rfl, rfl, rfl⟩
+  · have hl := malloc_ledger grow fresh s (c * k) m
+    rw [calloc_no_overflow grow fresh s c k m (by omega)]
+    cases hm : (malloc grow fresh s (c * k) m).1 with
+    | none => simp only [hm] at hl ⊢; exact ⟨fun _ => hl.1 trivial, hl.2⟩
+    | some a =>
+      have hs := malloc_some grow fresh s _ m h a hm
+      simp only [hs.2.2.1, decide_true, Mem.check_true]
+      refine ⟨fun hn => by simp at hn, ?_, hl.2.2⟩
+      have : ({ (malloc grow fresh s (c * k) m).2.1 with
+                pages := fillTop (malloc grow fresh s (c * k) m).2.1.pages a.2 (c * k) 0 } : DynamicPool).owned
+          = (malloc grow fresh s (c * k) m).2.1.owned := by
+        simp only [owned, fillTop]; cases (malloc grow fresh s (c * k) m).2.1.pages <;> rfl
+      rw [this]; exact hl.2.1
 
 theorem calloc_atomic (grow : Nat → Nat) (fresh : Nat) (s : DynamicPool) (c k : Nat) (m : Mem)
     (h : (calloc grow fresh s c k m).2.2.nrefused ≠ m.nrefused) :
     (calloc grow fresh s c k m).1 = none ∧ (calloc grow fresh s c k m).2.1 = s ∧
     (calloc grow fresh s c k m).2.2.live = m.live := by
-  have ha := malloc_atomic grow fresh s (c * k % sizeMod) m
-  unfold calloc at h ⊢; dsimp only at h ⊢
-  cases hm : (malloc grow fresh s (c * k % sizeMod) m).1 with
-  | none =>
-    simp only [hm] at h ⊢
-    have := ha h
-    exact ⟨by first | rfl | trivial, this.2.1, this.2.2⟩
-  | some a =>
-    simp only [hm] at h
-    have h' : (malloc grow fresh s (c * k % sizeMod) m).2.2.nrefused ≠ m.nrefused := by
-      intro e; apply h; rw [← e]; unfold Mem.check; split <;> rfl
-    have := (ha h').1
-    rw [hm] at this; cases this
+  by_cases hov : sizeMod ≤ c * k
+  · rw [calloc_overflow grow fresh s c k m hov]; exact ⟨rfl, rfl, rfl⟩
+  · have ha := malloc_atomic grow fresh s (c * k) m
+    rw [calloc_no_overflow grow fresh s c k m (by omega)] at h ⊢
+    cases hm : (malloc grow fresh s (c * k) m).1 with
+    | none =>
+      simp only [hm] at h ⊢
+      have := ha h
+      exact ⟨by first | rfl | trivial, this.2.1, this.2.2⟩
+    | some a =>
+      simp only [hm] at h
+      have h' : (malloc grow fresh s (c * k) m).2.2.nrefused ≠ m.nrefused := by
+        intro e; apply h; rw [← e]; unfold Mem.check; split <;> rfl
+      have := (ha h').1
+      rw [hm] at this; cases this
 
 /-! ### free -/
 theorem release_refines (s : DynamicPool) (p : Option (Nat × Nat)) (h : s.Inv) :
@@ -702,5 +736,268 @@ theorem reset_erase (s : DynamicPool) (m : Mem) :
     exact ⟨(erase_erase s).symm, trivial⟩
   | some q => simp [erase, eraseP]
 
+
+/-! ### preconditions of histories -/
+open Spec.DPool (Op) in
+/-- precondition of one operation in state `s` -/
+def OpOk (s : DynamicPool) : Op → Prop
+  | .calloc _ _ _ => s.topPageSize < sizeMod
+  | .write off n _ => off + n ≤ s.topPageSize
+  | _ => True
+
+open Spec.DPool (Op) in
+/-- every operation of the history meets its precondition in the state it is applied to -/
+def RunOk (grow : Nat → Nat) (fresh : Nat) : DynamicPool → List Op → Mem → Prop
+  | _, [], _ => True
+  | s, op :: ops, m =>
+    OpOk s op ∧ RunOk grow fresh (step grow fresh s op m).2.1 ops (step grow fresh s op m).2.2
+
+
 end DynamicPool
 end CC
+
+/-! ## facts about the page/block spec (`Spec.DPool`) used by `Properties/C13.lean` -/
+namespace CC.Spec.DPoolFacts
+open CC CC.Spec
+open CC.Spec.DPool (Op)
+
+theorem malloc_block (grow : Nat → Nat) (fresh : Nat) (s : DPool) (n : Nat) (r : Bool) (a : Nat × Nat)
+    (h : s.WF) (ha : (DPool.malloc grow fresh s n r).1 = some a) :
+    let s' := (DPool.malloc grow fresh s n r).2
+    let span := n + padOf s.packed s.ab n
+    a.1 = s'.pages.length - 1 ∧ a.2 + span ≤ s'.top.size ∧
+    s'.top.blocks.head? = some ⟨a.2, n, span⟩ ∧
+    (∀ b ∈ s'.top.blocks.tail, disjoint (a.2, span) (b.off, b.span)) ∧
+    ((∃ p ps, s.pages = p :: ps ∧ s'.pages = { p with blocks := ⟨a.2, n, span⟩ :: p.blocks } :: ps) ∨
+     (s.fixed = false ∧ r = false ∧
+      s'.pages = { size := grow s.top.size, bytes := List.replicate (grow s.top.size) fresh, blocks := [⟨0, n, span⟩] } :: s.pages)) := by
+  intro s' span
+  obtain ⟨hne, hall, _⟩ := h
+  cases hp : s.pages with
+  | nil => exact (hne hp).elim
+  | cons p ps =>
+    have hpw := hall p (by rw [hp]; exact List.mem_cons_self ..)
+    have htop : s.top = p := by simp [DPool.top, hp]
+    simp only [s', span]
+    unfold DPool.malloc at ha ⊢
+    rw [htop] at ha ⊢
+    simp only [DPool.topUsed, htop] at ha ⊢
+    by_cases h1 : n ≥ p.size
+    · simp [h1] at ha
+    · simp only [h1, if_false] at ha ⊢
+      by_cases h2 : n + padOf s.packed s.ab n ≤ p.size - spanLen p.blocks
+      · simp only [h2, if_true, Option.some.injEq] at ha ⊢
+        subst ha
+        have hs := hpw.2.1
+        simp only [DPool.pushBlock, hp, DPool.top, List.headD_cons, List.length_cons, Nat.add_sub_cancel,
+          List.head?_cons, List.tail_cons, true_and]
+        refine ⟨by omega, ?_, Or.inl ⟨p, ps, rfl, rfl⟩⟩
+        intro b hb
+        have := (playout_bound _ hpw.1 b hb).1
+        right; simp only; omega
+      · simp only [h2, if_false] at ha ⊢
+        by_cases h3 : (s.fixed || decide (n + padOf s.packed s.ab n > grow p.size)) = true
+        · simp [h3] at ha
+        · simp only [h3] at ha ⊢
+          cases r with
+          | true => simp at ha
+          | false =>
+            simp only [Bool.false_eq_true, if_false, Option.some.injEq] at ha ⊢
+            subst ha
+            simp only [Bool.or_eq_true, decide_eq_true_eq, not_or, Bool.not_eq_true] at h3
+            simp only [DPool.top, hp, List.headD_cons, List.length_cons, Nat.add_sub_cancel, List.head?_cons,
+              List.tail_cons, true_and]
+            refine ⟨by omega, by simp, Or.inr ⟨h3.1, by first | rfl | trivial⟩⟩
+
+theorem spec_wf_step (grow : Nat → Nat) (fresh : Nat) (s : DPool) (op : Op) (h : s.WF) :
+    (DPool.step grow fresh s op).2.WF := by
+  have hfill : ∀ (t : DPool) (off n v : Nat), t.WF → (t.fillTop off n v).WF := by
+    intro t off n v ht
+    obtain ⟨hne, hall, hfix⟩ := ht
+    cases hp : t.pages with
+    | nil => exact (hne hp).elim
+    | cons p ps =>
+      simp only [DPool.fillTop, hp]
+      refine ⟨by simp, ?_, by simpa [hp] using hfix⟩
+      intro q hq
+      cases hq with
+      | head =>
+        have := hall p (by rw [hp]; exact List.mem_cons_self ..)
+        exact ⟨this.1, this.2.1, by simpa using this.2.2.1, this.2.2.2⟩
+      | tail _ hq' => exact hall q (by rw [hp]; exact List.mem_cons_of_mem _ hq')
+  have hmalloc : ∀ n r, (DPool.malloc grow fresh s n r).2.WF := by
+    intro n r
+    obtain ⟨hne, hall, hfix⟩ := h
+    cases hp : s.pages with
+    | nil => exact (hne hp).elim
+    | cons p ps =>
+      have hpw := hall p (by rw [hp]; exact List.mem_cons_self ..)
+      have htop : s.top = p := by simp [DPool.top, hp]
+      unfold DPool.malloc
+      rw [htop]; simp only [DPool.topUsed, htop]
+      have hWF : s.WF := ⟨hne, hall, hfix⟩
+      by_cases h1 : n ≥ p.size
+      · simpa [h1] using hWF
+      · simp only [h1, if_false]
+        by_cases h2 : n + padOf s.packed s.ab n ≤ p.size - spanLen p.blocks
+        · simp only [h2, if_true, DPool.pushBlock, hp]
+          refine ⟨by simp, ?_, by simpa [hp] using hfix⟩
+          intro q hq
+          cases hq with
+          | head =>
+            obtain ⟨hl, hs, hb, hal⟩ := hpw
+            refine ⟨⟨rfl, by dsimp only; omega, hl⟩, by simp only [spanLen]; omega, hb, ?_⟩
+            intro hpk hab b hbm
+            cases hbm with
+            | head =>
+              dsimp only
+              exact ⟨DynamicPool.spanLen_mod s.ab p.blocks (fun b hb => (hal hpk hab b hb).2),
+                     (span_aligned _ _ n hpk hab).1⟩
+            | tail _ hb' => exact hal hpk hab b hb'
+          | tail _ hq' => exact hall q (by rw [hp]; exact List.mem_cons_of_mem _ hq')
+        · simp only [h2, if_false]
+          by_cases h3 : (s.fixed || decide (n + padOf s.packed s.ab n > grow p.size)) = true
+          · simpa [h3] using hWF
+          · simp only [h3]
+            cases r with
+            | true => simpa using hWF
+            | false =>
+              simp only [Bool.or_eq_true, decide_eq_true_eq, not_or, Bool.not_eq_true] at h3
+              simp only [Bool.false_eq_true, if_false]
+              refine ⟨by simp, ?_, fun hf => by rw [h3.1] at hf; cases hf⟩
+              intro q hq
+              cases hq with
+              | head =>
+                refine ⟨⟨rfl, by dsimp only; omega, trivial⟩, by simp only [spanLen]; omega, by simp, ?_⟩
+                intro hpk hab b hbm
+                simp only [List.mem_singleton] at hbm
+                subst hbm
+                exact ⟨by simp, (span_aligned _ _ n hpk hab).1⟩
+              | tail _ hq' => exact hall q hq'
+  cases op with
+  | malloc n r => exact hmalloc n r
+  | calloc c k r =>
+    simp only [DPool.step, DPool.calloc]
+    split
+    · exact hfill _ _ _ _ (hmalloc _ r)
+    · exact hmalloc _ r
+  | release p =>
+    obtain ⟨hne, hall, hfix⟩ := h
+    simp only [DPool.step, DPool.release]
+    split
+    · rename_i pg ps a _ hpg
+      split
+      · rename_i b rest hb
+        split
+        · refine ⟨by simp, ?_, by simpa [hpg] using hfix⟩
+          intro q hq
+          cases hq with
+          | head =>
+            obtain ⟨hl, hs, hbl, hal⟩ := hall pg (by rw [hpg]; exact List.mem_cons_self ..)
+            rw [hb] at hl hs hal
+            simp only [DPool.layout] at hl
+            simp only [spanLen] at hs
+            exact ⟨hl.2.2, by dsimp only; omega, hbl, fun a1 a2 b' hb' => hal a1 a2 b' (List.mem_cons_of_mem _ hb')⟩
+          | tail _ hq' => exact hall q (by rw [hpg]; exact List.mem_cons_of_mem _ hq')
+        · exact ⟨hne, hall, hfix⟩
+      · exact ⟨hne, hall, hfix⟩
+    · exact ⟨hne, hall, hfix⟩
+  | reset =>
+    obtain ⟨hne, hall, hfix⟩ := h
+    simp only [DPool.step, DPool.reset]
+    split
+    · rename_i q hq
+      refine ⟨by simp, ?_, fun _ => rfl⟩
+      intro r hr
+      simp only [List.mem_singleton] at hr
+      subst hr
+      have := hall q (List.mem_of_getLast? hq)
+      exact ⟨trivial, Nat.zero_le _, this.2.2.1, fun _ _ b hb => by cases hb⟩
+    · exact ⟨hne, hall, hfix⟩
+  | write off n v => exact hfill s off n v h
+
+theorem oldest_page_size (grow : Nat → Nat) (fresh : Nat) (s : DPool) (op : Op) :
+    ((DPool.step grow fresh s op).2.pages.getLast?.map (·.size)) = (s.pages.getLast?.map (·.size)) := by
+  have hfill : ∀ (t : DPool) (off n v : Nat),
+      (t.fillTop off n v).pages.getLast?.map (·.size) = t.pages.getLast?.map (·.size) := by
+    intro t off n v
+    simp only [DPool.fillTop]
+    cases hp : t.pages with
+    | nil => simp [hp]
+    | cons p ps => cases ps <;> simp [List.getLast?_cons_cons]
+  have hmalloc : ∀ n r, (DPool.malloc grow fresh s n r).2.pages.getLast?.map (·.size) = s.pages.getLast?.map (·.size) := by
+    intro n r
+    unfold DPool.malloc
+    by_cases h1 : n ≥ s.top.size
+    · simp [h1]
+    · by_cases h2 : n + padOf s.packed s.ab n ≤ s.top.size - s.topUsed
+      · simp only [h1, h2, if_false, if_true, DPool.pushBlock]
+        cases hp : s.pages with
+        | nil => simp [hp]
+        | cons p ps => cases ps <;> simp [List.getLast?_cons_cons]
+      · by_cases h3 : (s.fixed || decide (n + padOf s.packed s.ab n > grow s.top.size)) = true
+        · simp [h1, h2, h3]
+        · cases r
+          · simp only [h1, h2, h3, if_false, Bool.false_eq_true]
+            cases hp : s.pages with
+            | nil => simp [DPool.top, hp] at h1
+            | cons p ps => simp [List.getLast?_cons_cons]
+          · simp [h1, h2, h3]
+  cases op with
+  | malloc n r => exact hmalloc n r
+  | calloc c k r =>
+    simp only [DPool.step, DPool.calloc]
+    split
+    · rw [hfill]; exact hmalloc _ r
+    · exact hmalloc _ r
+  | release p =>
+    simp only [DPool.step, DPool.release]
+    split
+    · rename_i pg ps a _ hpg
+      split
+      · split
+        · rw [hpg]; cases ps <;> simp [List.getLast?_cons_cons]
+        · rfl
+      · rfl
+    · rfl
+  | reset =>
+    simp only [DPool.step, DPool.reset]
+    split
+    · rename_i q hq; simp [hq]
+    · rfl
+  | write off n v => exact hfill s off n v
+
+theorem calloc_zeroed (grow : Nat → Nat) (fresh : Nat) (s : DPool) (c k : Nat) (r : Bool) (a : Nat × Nat)
+    (h : s.WF) (ha : (DPool.calloc grow fresh s c k r).1 = some a) :
+    (DPool.malloc grow fresh s (c * k) r).1 = some a ∧
+    (∀ i, i < c * k → (DPool.calloc grow fresh s c k r).2.top.bytes.getD (a.2 + i) 0 = 0) ∧
+    (∀ j, j < (DPool.malloc grow fresh s (c * k) r).2.top.size → ¬ (a.2 ≤ j ∧ j < a.2 + c * k) →
+       (DPool.calloc grow fresh s c k r).2.top.bytes.getD j 0 = (DPool.malloc grow fresh s (c * k) r).2.top.bytes.getD j 0) ∧
+    (DPool.calloc grow fresh s c k r).2.pages.tail = (DPool.malloc grow fresh s (c * k) r).2.pages.tail := by
+  have hwf1 : (DPool.malloc grow fresh s (c * k) r).2.WF := spec_wf_step grow fresh s (.malloc (c * k) r) h
+  simp only [DPool.calloc] at ha ⊢
+  cases hm : (DPool.malloc grow fresh s (c * k) r).1 with
+  | none => simp [hm] at ha
+  | some a' =>
+    simp only [hm, Option.some.injEq] at ha ⊢
+    subst ha
+    have hb := (malloc_block grow fresh s (c * k) r a' h hm).2.1
+    obtain ⟨hne, hall, _⟩ := hwf1
+    generalize (DPool.malloc grow fresh s (c * k) r).2 = s1 at *
+    cases hp : s1.pages with
+    | nil => exact (hne hp).elim
+    | cons p ps =>
+      have hpw := hall p (by rw [hp]; exact List.mem_cons_self ..)
+      have htop : s1.top = p := by simp [DPool.top, hp]
+      rw [htop] at hb ⊢
+      have hlen := hpw.2.2.1
+      simp only [DPool.fillTop, hp, DPool.top, List.headD_cons, List.tail_cons, true_and]
+      refine ⟨?_, ?_, trivial⟩
+      · intro i hi
+        rw [getD_fillBytes _ _ _ _ _ (by omega)]
+        simp; omega
+      · intro j hj hout
+        rw [getD_fillBytes _ _ _ _ _ (by omega)]
+        simp [hout]
+
+end CC.Spec.DPoolFacts
